@@ -343,7 +343,7 @@ func c18Parent(prop, tier string) int {
 		fmt.Println("HARNESS-ERROR: scheduler build missing:", err)
 		return 2
 	}
-	total, crashes, err := explore.RunSharded(explore.Options{Property: prop, Tier: tier, Shards: 16, Budget: budget, Exe: exe})
+	total, crashes, err := explore.RunSharded(explore.Options{Property: prop, Tier: tier, Shards: 16, Budget: budget, Horizon: budget + 30*time.Minute, Exe: exe})
 	if err != nil {
 		fmt.Println("HARNESS-ERROR:", err)
 		return 2
